@@ -22,7 +22,7 @@ LEVEL_NOTE = ('partial: exactness of trapezoid bins for spectra linear across ea
               'non-negativity/exactness of Simpson bins and every scipy.integrate.simpson clause are oracle-only. Open known finding KF-C15-bin-integer-centres. '
               'Trusted: scipy interp1d(kind=linear) = piecewise-linear interpolant with fill; np.linspace, np.delete, np.trapz as modelled.')
 TECHNIQUE = 'Lean 4 proof (induction over lists and over operation histories) about a hand model + per-step differential correspondence at ℚ'
-GEN = ['SpectrumOps']
+GEN = ['SpectrumOps', 'Units']
 OPS = ['C15']
 RULE = ('streams: histories, integrate, setvalue (sample/bin, assign `value`/`wave`, sample/bin again on the same object), bin (own/other/default unit, integer-dtype centres int16/32/64 up to the top of the range), unit (sample/resample across units), extremes (number scales, histories > 32 ops in search/thorough). histories of 5..12 (quick) / 5..30 (thorough) operations drawn from crop/trim/pad/append/resample with parameters relative to the '
         'current range (inside, at, and outside it; refusals included: non-increasing grids, overlapping appends, wrong lengths, '
@@ -41,9 +41,10 @@ UNPROVEN = ['non-negativity of Simpson bins (trapezoid: bin_trapz_nonneg, about 
             'integral on linear data)',
             'integrate(method="simps") (scipy.integrate.simpson is not modelled)',
             'non-negativity of Simpson bins under preserve_power (scipy.integrate.simpson can be negative on non-uniform data)']
-ASSUMPTIONS = ['preserve_power divides by the sum of the un-normalised bins: when that sum is zero (e.g. all centres outside the data with fill 0) the code returns nan/inf; such calls are counted (tag bin:non-finite) and only checked for agreement with the model\'s zero raw sum',
+ASSUMPTIONS = ['append() ignores the wavelength unit of the appended spectrum (its numbers are appended as they are and keep the caller\'s unit label): generated (tag append:other-unit), model and oracle follow the code — the result is well-formed, which is all the property claims; reported as an observation',
+               'preserve_power divides by the sum of the un-normalised bins: when that sum is zero (e.g. all centres outside the data with fill 0) the code returns nan/inf; such calls are counted (tag bin:non-finite) and only checked for agreement with the model\'s zero raw sum',
                'bin(interp_method="simps", preserve_power=True) raises ValueError (from scipy.integrate.simpson) when no data sample lies inside the span of the centres; such calls are outside the modelled scope',
-               'spectra are 1-D with finite data; histories run in nm (also at x2^-30 and x2^10 number scales); sample, resample and bin are also run with abscissae in another unit or the default nm (the code converts a copy)',
+               'spectra are 1-D with finite data; histories run under every unit label (nm/um/angstrom/m; also at x2^-30 and x2^10 number scales); sample, resample and bin are also run with abscissae in another unit or the default nm (the code converts a copy)',
                'histories continue after a refusal with the object as the refused call left it']
 
 OPK = ['crop', 'trim', 'pad', 'append', 'resample']
@@ -98,6 +99,12 @@ def generate(rng, tier):
             out.append({'kind': 'history', 'wave': w, 'value': v, 'ops': [_op(rng) for _ in range(int(rng.integers(lmin, lmax + 1)))]})
             # the same grids at metre-like (x 2^-30 ~ 1e-9) and large (x 2^10) magnitudes: the operations must not depend on the
             # absolute size of the wavelength numbers (exact: powers of two), and histories of more than 32 operations
+            # the spectrum's unit label (the resizing operations work on the numbers; arguments are given in the spectrum's unit);
+            # an appended spectrum may carry ANOTHER unit label: append ignores it (observation, tag append:other-unit)
+            if rng.integers(0, 3) == 0:
+                out[-1]['unit'] = UNITS[int(rng.integers(0, 4))]
+                for o in out[-1]['ops']:
+                    if o['k'] == 'append' and rng.integers(0, 2): o['ounit'] = UNITS[int(rng.integers(0, 4))]
             r = int(rng.integers(0, 40 if tier == 'quick' else 6))
             if r < 2:
                 hs = [2.0 ** -30, 2.0 ** 10][r]
@@ -163,7 +170,7 @@ def _vals(c):
     return v.astype(np.int64) if c.get('dtype') == 'int' else v
 
 def signature(c):
-    if c['kind'] == 'history': return 'history%s n=%d %s %s' % ('' if 'hscale' not in c else '*%g' % c['hscale'], len(c['wave']), ','.join(o['k'] for o in c['ops']), c['wave'][:2])
+    if c['kind'] == 'history': return 'history%s%s n=%d %s %s' % (c.get('unit', ''), '' if 'hscale' not in c else '*%g' % c['hscale'], len(c['wave']), ','.join(o['k'] for o in c['ops']), c['wave'][:2])
     if c['kind'] == 'setvalue': return 'setvalue n=%d %s %s %s %s' % (len(c['wave']), c['fr'], c['shift'], c['method'], c['wave'][:2])
     if c['kind'] == 'unit': return 'unit %s>%s%s n=%d %s %s' % (c['unit'], c['req'], '*' if c['omit_unit'] else '', len(c['wave']), c['fr'], c['wave'][:2])
     if c['kind'] == 'integrate': return 'integrate n=%d %s %s %s' % (len(c['wave']), c['a'], c['b'], c['wave'][:2])
@@ -175,7 +182,7 @@ def nontrivial(c):
 
 def tags(c):
     t = [c['kind'], 'dtype:' + c.get('dtype', 'float')]
-    if c['kind'] == 'history': t += sorted({'op:' + o['k'] for o in c['ops']}) + ['scale:%g' % c.get('hscale', 1.0)] + (['long-history'] if len(c['ops']) > 32 else [])
+    if c['kind'] == 'history': t += sorted({'op:' + o['k'] for o in c['ops']}) + ['scale:%g' % c.get('hscale', 1.0), 'history-unit:' + c.get('unit', 'nm')] + (['append:other-unit'] if any(o.get('ounit') not in (None, c.get('unit', 'nm')) for o in c['ops']) else []) + (['long-history'] if len(c['ops']) > 32 else [])
     if c['kind'] == 'bin':
         t += ['bin:' + ('simps' if c['simps'] else 'trapz'), 'bin:' + c['ends'], 'bin:unit=' + c['unit'], 'bin:pp=%s' % c['pp'],
               'bin:requested=' + ('default' if c.get('omit_unit') else 'own' if c.get('req', c['unit']) == c['unit'] else 'other')]
@@ -252,7 +259,7 @@ def _impl(c):
         warnings.simplefilter('ignore')
         k = c['kind']
         if k == 'history':
-            s = R.Spectrum(np.array(c['wave']), _vals(c), waveunit='nm')
+            s = R.Spectrum(np.array(c['wave']), _vals(c), waveunit=c.get('unit', 'nm'))
             steps = []
             for o in c['ops']:
                 if np.size(s.wave) > 1500: break          # repeated pads grow the grid geometrically: stop the history there
@@ -265,7 +272,7 @@ def _impl(c):
                 if p['k'] == 'append':
                     # the other spectrum must itself be constructible; otherwise the step is a no-op
                     try:
-                        p['_other'] = R.Spectrum(np.array(p['wave']), np.array(p['value']), waveunit='nm'); p['_valid'] = False
+                        p['_other'] = R.Spectrum(np.array(p['wave']), np.array(p['value']), waveunit=o.get('ounit', c.get('unit', 'nm'))); p['_valid'] = False
                     except ValueError:
                         steps.append({'p': {kk: v for kk, v in p.items() if not kk.startswith('_')}, 'before': before, 'after': before, 'exc': None, 'skipped': True}); continue
                 exc, ret = None, None
